@@ -214,7 +214,7 @@ where
                         Err(format!("Expected 2-digit sec in range 0..=60, got {}", s))
                     }
                 }
-                Some(DateToken::Number(ref s, Some(ref f))) if s.len() == 2 => {
+                Some(DateToken::Number(ref s, Some(ref f))) if s.len() == 2 && f.len() <= 9 => {
                     let secs = u32::from_str_radix(&**s, 10);
                     let nsecs = u32::from_str_radix(&**f, 10);
                     if let (Ok(secs), Ok(nsecs)) = (secs, nsecs) {
